@@ -37,9 +37,14 @@ res['files'] = sh('git diff --name-only').stdout.split()
 if any(not f.startswith('valjean/') for f in res['files']):
     res['warning'] = 'change touches files outside valjean/'
 rc_with, tail_with = demo()
-sh('git stash')
+# no `git stash` here: the stash is shared by all worktrees of the repository, concurrent confirmations would swap their changes
+back = sh(f'git apply -R {out}/patch.diff')
+if back.returncode:
+    sys.exit('cannot revert the change: ' + back.stderr)
 rc_without, tail_without = demo()
-sh('git stash pop')
+again = sh(f'git apply {out}/patch.diff')
+if again.returncode or sh('git diff').stdout != diff:
+    sys.exit('cannot re-apply the change: ' + again.stderr)
 res['demo_with_change'] = {'exit': rc_with, 'tail': tail_with}
 res['demo_without_change'] = {'exit': rc_without, 'tail': tail_without}
 junit = out + '/junit_confirm.xml'
